@@ -123,9 +123,11 @@ pub fn main() -> i32 {
                 Some("heavy") => 2,
                 Some("promo") => 3,
                 Some("greedy") => 4,
+                Some("epcheck") => 5,
+                Some("sparse") => 6,
                 _ => 0,
             };
-            for (fen, label) in mates::generate(n, [0x5EED_C12, 0x5EED_C12B, 0x5EED_C12C, 0x5EED_C12D, 0x5EED_C12E][profile as usize], profile) {
+            for (fen, label) in mates::generate(n, [0x5EED_C12, 0x5EED_C12B, 0x5EED_C12C, 0x5EED_C12D, 0x5EED_C12E, 0x5EED_C12F, 0x5EED_C130][profile as usize], profile) {
                 println!("{label}\t{fen}");
             }
             0
